@@ -106,7 +106,16 @@ class Explorer:
             if not is_lhs:
                 self.events.append(("read", n, s))
         if on_element is not None:
-            on_element(n, s, self)
+            r = on_element(n, s, self)
+            if r is not None:
+                # the callback may rewrite the state (ghost variables): a list of replacement states
+                res = []
+                for s2 in r:
+                    res.extend(self._assign(n, s2))
+                return res
+        return self._assign(n, s)
+
+    def _assign(self, n, s):
         out = [s]
         if n.k == "BinaryOperator" and n.op == "=" and key(n.c[0]) in self.index:
             i = self.index[key(n.c[0])]
